@@ -77,13 +77,35 @@ func hasCycle(st []gstage) bool {
 	return false
 }
 
-func observeGraph(g *scheduler.ExecutionGraph, names []string) string {
+// ren maps the canonical stage names of a case (A, B, ...) to the names actually given to the stages
+// (nil: the same); the observation is reported in canonical names
+func observeGraph(g *scheduler.ExecutionGraph, names []string, ren map[string]string) string {
+	real := func(n string) string {
+		if r, ok := ren[n]; ok {
+			return r
+		}
+		return n
+	}
+	back := map[string]string{}
+	for c, r := range ren {
+		back[r] = c
+	}
+	canon := func(l []string) string {
+		out := make([]string, len(l))
+		for i, n := range l {
+			out[i] = n
+			if c, ok := back[n]; ok {
+				out[i] = c
+			}
+		}
+		return strings.Join(out, ",")
+	}
 	var parts []string
 	for _, n := range names {
-		parts = append(parts, fmt.Sprintf("to %s=%s", n, strings.Join(g.To(n), ",")))
+		parts = append(parts, fmt.Sprintf("to %s=%s", n, canon(g.To(real(n)))))
 	}
 	for _, n := range names {
-		parts = append(parts, fmt.Sprintf("from %s=%s", n, strings.Join(g.From(n), ",")))
+		parts = append(parts, fmt.Sprintf("from %s=%s", n, canon(g.From(real(n)))))
 	}
 	return "ok|" + strings.Join(parts, "|")
 }
@@ -108,7 +130,29 @@ func expectedEdges(st []gstage, names []string) string {
 	return "ok|" + strings.Join(parts, "|")
 }
 
-func c05Direct(st []gstage) (obs string, other string) {
+func renamed(st []gstage, ren map[string]string) []gstage {
+	if ren == nil {
+		return st
+	}
+	r := func(n string) string {
+		if x, ok := ren[n]; ok {
+			return x
+		}
+		return n
+	}
+	out := make([]gstage, len(st))
+	for i, s := range st {
+		out[i].name = r(s.name)
+		for _, d := range s.deps {
+			out[i].deps = append(out[i].deps, r(d))
+		}
+	}
+	return out
+}
+
+func c05Direct(st []gstage, ren map[string]string) (obs string, other string) {
+	canonNames := allNames(st)
+	st = renamed(st, ren)
 	stages := make([]*scheduler.Stage, len(st))
 	for i, s := range st {
 		stages[i] = &scheduler.Stage{Name: s.name, DependsOn: append([]string(nil), s.deps...)}
@@ -120,11 +164,13 @@ func c05Direct(st []gstage) (obs string, other string) {
 		}
 		return "err", "non-cycle error: " + err.Error()
 	}
-	return observeGraph(g, allNames(st)), ""
+	return observeGraph(g, canonNames, ren), ""
 }
 
 // c05Pipeline goes through mapstructure decoding and internal/config.buildPipeline.
-func c05Pipeline(st []gstage) (obs string, other string) {
+func c05Pipeline(st []gstage, ren map[string]string) (obs string, other string) {
+	canonNames := allNames(st)
+	st = renamed(st, ren)
 	var stages []interface{}
 	for _, s := range st {
 		deps := make([]interface{}, len(s.deps))
@@ -145,19 +191,33 @@ func c05Pipeline(st []gstage) (obs string, other string) {
 		}
 		return "err", "non-cycle error: " + err.Error()
 	}
-	return observeGraph(cfg.Pipelines["p"], allNames(st)), ""
+	return observeGraph(cfg.Pipelines["p"], canonNames, ren), ""
 }
 
-func c05Case(c *Collector, st []gstage, via string, tag string) {
+func c05Case(c *Collector, st []gstage, via string, tag string) { c05CaseRen(c, st, via, tag, nil) }
+
+// stage names that collide when two of them are glued with a separator ("a"+":"+"b:a" = "a:b"+":"+"a"), names
+// that are prefixes of one another, names with spaces and punctuation
+var oddNamePools = [][]string{
+	{"a", "b", "a:b", "b:a"}, {"a", "b", "a/b", "b/a"}, {"a", "b", "a->b", "b->a"}, {"a", "b", "a,b", "b,a"}, {"a", "b", "a b", "b a"},
+	{"a", "b", "a|b", "b|a"}, {"a", "b", "a.b", "b.a"}, {"a", "b", "a-b", "b-a"}, {"a", "b", "a_b", "b_a"}, {"x", "xx", "xxx", "x x"},
+	{"1", "01", "1.0", "+1"}, {"deploy:eu", "smoke", "deploy", "eu:smoke"},
+}
+
+func c05CaseRen(c *Collector, st []gstage, via string, tag string, ren map[string]string) {
 	var obs, other string
 	if via == "pipeline" {
-		obs, other = c05Pipeline(st)
+		obs, other = c05Pipeline(st, ren)
 	} else {
-		obs, other = c05Direct(st)
+		obs, other = c05Direct(st, ren)
 	}
 	cyc := hasCycle(st)
 	cs := Case{Line: graphLine(st), Impl: obs, Tags: []string{tag, "via=" + via, fmt.Sprintf("stages=%d", len(st))}}
 	cs.Replay = fmt.Sprintf("%s via=%s", cs.Line, via)
+	if ren != nil {
+		cs.Replay += fmt.Sprintf(" with the stages named %q", ren)
+		cs.Tags = append(cs.Tags, "odd-names")
+	}
 	if cyc {
 		cs.Tags = append(cs.Tags, "cyclic")
 	} else {
@@ -219,6 +279,26 @@ func runC05(c *Collector, tier string, seed int64) {
 		}
 	}
 	parallel(len(work), 16, func(i int) { c05Case(c, work[i], vias[i], "exh4") })
+	// the same digraphs (a sample in the quick tier) with stage names from the pools above
+	type rj struct {
+		st  []gstage
+		via string
+		ren map[string]string
+	}
+	var rjobs []rj
+	for mask := 0; mask < 1<<16; mask++ {
+		if tier != "thorough" && mask%11 != int(seed%11+11)%11 {
+			continue
+		}
+		pool := oddNamePools[mask%len(oddNamePools)]
+		ren := map[string]string{"A": pool[0], "B": pool[1], "C": pool[2], "D": pool[3]}
+		via := "direct"
+		if mask%3 == 0 {
+			via = "pipeline"
+		}
+		rjobs = append(rjobs, rj{stagesFromMask(names, 4, mask, perms[rng.Intn(24)], rng), via, ren})
+	}
+	parallel(len(rjobs), 16, func(i int) { c05CaseRen(c, rjobs[i].st, rjobs[i].via, "exh4-odd-names", rjobs[i].ren) })
 	// random larger graphs
 	nr := 3000
 	if tier == "thorough" {
